@@ -316,6 +316,37 @@ def settle_origins(prog: Dict[str, Any]) -> int:
     return moved
 
 
+def in_domain(prog: Dict[str, Any]) -> bool:
+    """Shrinker guard: is a (reduced) program still one the generator could have produced?  Every symbolic operand's
+    MODEL value fits its operand field (the generator only places a symbol where it fits; deleting a `.ORG` or a
+    statement can push a label out of range, and the resulting rejection would reproduce on a correct tree), no two
+    runs emit to the same address, nothing extends beyond the address space."""
+    lay = layout(prog)
+    labs = lay["labels"]
+    for ln in prog["lines"]:
+        stmt = ln.get("stmt")
+        if not stmt:
+            continue
+        if stmt["t"] == "instr":
+            for op, kind in zip(stmt["ops"], S.slots_of(stmt["shape"])):
+                if "sym" in op and kind != "J":
+                    lab = labs.get(op["sym"].upper())
+                    if lab is None or lab["value"] > S.SLOT_MAX[kind]:
+                        return False
+        elif stmt["t"] in DATA_W:
+            lim = min((1 << (8 * DATA_W[stmt["t"]])) - 1, 0xFFFFF)
+            for op in stmt["args"]:
+                if "sym" in op:
+                    lab = labs.get(op["sym"].upper())
+                    if lab is None or lab["value"] > lim:
+                        return False
+    recs = [r for r in lay["recs"] if not r.get("loc") and r["size"]]
+    if any(r["addr"] + r["size"] > ADDRESS_SPACE for r in recs):
+        return False
+    em = sorted((r["addr"], r["addr"] + r["size"]) for r in recs if r["emits"])
+    return all(em[k][1] <= em[k + 1][0] for k in range(len(em) - 1))
+
+
 def near_expectations(prog: Dict[str, Any], lay: Dict[str, Any]) -> Tuple[List[int], List[int], List[int]]:
     """(indices of near JP/CALL statements whose symbolic target is on another page, indices of ambiguous ones,
     indices of near JP/CALL statements whose LITERAL target names another page).
